@@ -23,7 +23,8 @@ from .fam_fs import extract
 
 NAME = "det"
 
-DIMS = ["entropy", "rand", "set_order", "clock_pid", "buffers", "prehistory", "environ", "list_order", "schedule", "stale_out"]
+DIMS = ["entropy", "rand", "set_order", "clock_pid", "buffers", "prehistory", "environ", "list_order", "schedule", "stale_out",
+        "host_threads"]
 BUILTIN_RESERVED = ["router", "system", "permit", "interface", "domain-search", "esp-seal", "snmp", "trunk", "neighbor"]
 
 
@@ -246,7 +247,20 @@ def _exec(plan, dims, salt=None, child=None):
     knobs = _knobs(plan, dims)
     if child is not None:
         knobs = dict(knobs, real_set_order=True)
-    world = {"disk": disk, "procs": [{"knobs": knobs, "faults": [], "pre": pre, "steps": [step]}]}
+    pspec = {"knobs": knobs, "faults": [], "pre": pre, "steps": [step]}
+    if "host_threads" in dims and child is None and plan["opts"]["salt"] is not None:
+        # a threaded host application: while this run goes on in one caller thread, two other threads anonymize the same
+        # tree with anonymizers of their own (other salts, passwords and addresses on); the seeded interleaver moves the
+        # baton at line events inside the package, so one key is one interleaving
+        if step["entry"] == "cli":
+            step = dict(step, entry="files")
+        others = [{"entry": e, "opts": dict(o, salt=(o["salt"] or "") + sfx, pwd=True, ip=True, undo=False, words=None, reserved=None),
+                   "in": "in", "out": "other/thr%d" % n, "dump": None}
+                  for n, (e, sfx) in enumerate([("files", "T1"), ("file", "t2")])]
+        for st in others:
+            st["opts"]["as"] = None
+        pspec = dict(pspec, steps=[step] + others, threads={"key": plan["k2"]["sched_key"], "rate": 0.03})
+    world = {"disk": disk, "procs": [pspec]}
     if child is not None:
         H = core.run_child_world(world, child, plan.get("child_optimize", 0))
         h = H["procs"][0]
@@ -364,6 +378,10 @@ def check(plan):
         exercised = exercised or any(plan["opts"].get(k) and len(plan["opts"][k]) > 1 for k in ("words", "as", "reserved"))
     if "schedule" in dims:
         probes["sched_points"] = h1.get("sched_points", 0) + (h2.get("sched_points", 0) if isinstance(h2, dict) else 0)
+    if isinstance(h2, dict) and h2.get("thread_points"):
+        probes["host_thread_runs"] = 1
+        probes["host_thread_switches"] = h2.get("thread_switches", 0)
+        probes["host_thread_points"] = h2.get("thread_points", 0)
     if any(d in dims for d in ("rand", "clock_pid", "buffers", "environ", "stale_out")) or child is not None:
         exercised = True
     return _res(plan, V, probes, steps, [W.public_hist(h1), {k: v for k, v in h2.items() if k in (
